@@ -511,7 +511,8 @@ def isbuiltintype(
 @compat.cache
 def isstdlibtype(obj: type) -> compat.TypeIs[type[STDLibtypeT]]:
     if isoptionaltype(obj):
-        nargs = tp.get_args(obj)[:-1]
+        # `None` may be declared at any position, not only last.
+        nargs = (a for a in tp.get_args(obj) if a is not type(None))
         return all(isstdlibtype(a) for a in nargs)
     if isuniontype(obj):
         args = tp.get_args(obj)
